@@ -195,6 +195,15 @@ fn bind(rep: &mut Report, prop: &'static str, tier: Tier, alphabet: Vec<(&'stati
         });
         rep.set("e1_binding_note", "quick tier: sequences of maximal length contain at most one time jump, in the middle position (12 h jump only in shorter sequences)");
     }
+    if tier == Tier::Thorough {
+        // thorough: sequences of full length carry at most one time jump, in any position (every virtual day
+        // costs 14 400 refresh rounds of the idle node)
+        seqs.retain(|s| {
+            let jumps: Vec<u64> = s.iter().filter_map(|k| if let Sym::Advance(ms) = alphabet[*k].1 { Some(ms) } else { None }).collect();
+            s.len() < maxlen || jumps.len() <= 1 && jumps.iter().all(|ms| *ms <= 43_200_000)
+        });
+        rep.set("e1_binding_note", "thorough tier: sequences of maximal length contain at most one time jump (any position) of at most 12 h; shorter ones are unrestricted");
+    }
     let cfgs: Vec<NodeCfg> = tier.pick(
         vec![NodeCfg { v6: false, read_only: false, table: 0, store: false }],
         vec![NodeCfg { v6: false, read_only: false, table: 0, store: false }, NodeCfg { v6: true, read_only: false, table: 3, store: true }],
